@@ -48,6 +48,16 @@ pub fn ed25519_cert_nameless(key: u8, ip_only: bool) -> CertificateDer<'static> 
     p.self_signed(&kp).unwrap().der().to_owned()
 }
 
+/// A self-signed Ed25519 certificate for `[key; 32]` whose subject COMMON NAME is `cn` while its
+/// subject alternative name is `san` (or absent): names a network only where it does not count.
+pub fn ed25519_cert_with_cn(key: u8, san: Option<&str>, cn: &str) -> CertificateDer<'static> {
+    let kp = rcgen::KeyPair::from_der_and_sign_algo(&ed25519_pkcs8(key), &rcgen::PKCS_ED25519).unwrap();
+    let mut p = rcgen::CertificateParams::new(san.map(|s| vec![s.to_string()]).unwrap_or_default()).unwrap();
+    p.distinguished_name = rcgen::DistinguishedName::new();
+    p.distinguished_name.push(rcgen::DnType::CommonName, cn);
+    p.self_signed(&kp).unwrap().der().to_owned()
+}
+
 /// A self-signed ECDSA P-256 certificate with a fresh key: (certificate, PKCS#8 key).
 pub fn ecdsa_cert(name: &str) -> (CertificateDer<'static>, PrivateKeyDer<'static>) {
     let kp = rcgen::KeyPair::generate_for(&rcgen::PKCS_ECDSA_P256_SHA256).unwrap();
